@@ -104,6 +104,19 @@ template <class T> struct Driver {
             if ((ld)d < 0) fx.route("info.det_qr_negative");
             fx.route(exact ? "det.vs_exact" : "det.vs_longdouble");
             fx.verdict(why.empty(), h, true, why);
+            // the statement itself: the QR-based determinant is the product of the diagonal of the R that qr() returns for the same matrix
+            if (j.call) {
+                fxv::fill_const(q, nn, fxv::sentinel<T>::v()); fxv::fill_const(r, nn, fxv::sentinel<T>::v());
+                if (fx.run([&] { j.call(a, qp, rp, pp); })) {
+                    ld pr = 1; for (size_t i = 0; i < n; ++i) pr *= (ld)r[i * n + i];
+                    const ld tol = 8 * (ld)(n + 1) * u * la::absl(pr);
+                    std::string w2;
+                    if (!(la::absl((ld)d - pr) <= tol)) w2 = "determinant<QR> = " + fx::vstr((ld)d) + " but product(diag(R)) of qr() = " + la::sci(pr) + " (allowed difference " + la::sci(tol) + ")";
+                    fx.route("det.vs_diagR");
+                    fx.verdict(w2.empty(), h ^ 0x5d1a9, true, w2);
+                }
+                reset();
+            }
             return;
         }
         fxv::fill_const(q, nn, fxv::sentinel<T>::v()); fxv::fill_const(r, nn, fxv::sentinel<T>::v());
@@ -172,7 +185,7 @@ template <class T, size_t N, int PENC, int EXPR, int GROUP> static inline void q
     run_job<T>(fx, j);
 }
 template <class T, size_t N, int EXPR, int GROUP> static inline void det_case(fx::Ctx& fx) {
-    Job<T> j{N, sizeof(Tensor<T, N, N>), 0, K_DET, P_NONE, EXPR, GROUP, nullptr, &det_thunk<T, N, EXPR>};
+    Job<T> j{N, sizeof(Tensor<T, N, N>), 0, K_DET, P_NONE, EXPR, GROUP, &thunk<T, N, P_NONE, 0>, &det_thunk<T, N, EXPR>};
     run_job<T>(fx, j);
 }
 template <class T, size_t N> static inline void hhr_case(fx::Ctx& fx) {
